@@ -86,6 +86,20 @@ def check(run, project):
     a4(run, project, mod, roles)
     # ---- A5
     a5(run, mod, roles)
+    # ---- A6: decoder and object builder obtain the encrypted layout from the same memoised classmethod; they only agree
+    #      on the class *object* if that memo never evicts
+    from ..callgraph import CallGraph
+    from .c12 import check_memo
+    cg = CallGraph(project)
+    ref = cg.get(PARAMS, "TPMS_PARAMS.encrypted")
+    if ref is None:
+        raise AnalysisError("C11: TPMS_PARAMS.encrypted not found")
+    keyspace = sum(1 for c in L.all.values() if c.is_subclass_of(L.TPMS_PARAMS) and c is not L.TPMS_PARAMS)
+    check_memo(run, ref, keyspace, rule="A6")
+    memo = [d for d in ref.node.decorator_list if "cache" in norm(d)]
+    run.ob("A6", bool(memo), "the synthesised encrypted layout is memoised (one class object per parameter area)",
+           "encrypted() is no longer memoised: decoder and object builder synthesise two different classes", module=ref.mod,
+           node=ref.node, func=ref.qual, construct="encrypted() memoisation")
     run.floor("A1", 100)
     run.floor("A2", 500)
 
